@@ -159,6 +159,9 @@ impl<DataInterfaceType: DeduplicationDataInterface> FileDeduper<DataInterfaceTyp
         // Now, go through and process the result of the query.
         let mut cur_idx = 0;
 
+        // Chunks before this index were part of a dedup hit rejected by the fragmentation prevention.
+        let mut defrag_prevented_until = 0;
+
         while cur_idx < chunks.len() {
             let mut dedupe_query = deduped_blocks[cur_idx].take();
 
@@ -207,13 +210,20 @@ impl<DataInterfaceType: DeduplicationDataInterface> FileDeduper<DataInterfaceTyp
                             fse.cas_hash == MerkleHash::default()
                         )
                     });
-                    dedup_metrics.defrag_prevented_dedup_chunks += n_deduped;
-                    dedup_metrics.defrag_prevented_dedup_bytes += fse.unpacked_segment_bytes as usize;
+                    // The chunks of this hit are withheld from dedup; each of them is counted below if (and
+                    // only if) it ends up being stored as new data.  The rest of the run is looked at again
+                    // and may still be deduplicated or rejected a second time.
+                    defrag_prevented_until = defrag_prevented_until.max(cur_idx + n_deduped);
                 }
             }
 
             // Okay, now we need to add new data.
             let n_bytes = chunks[cur_idx].data.len();
+
+            if cur_idx < defrag_prevented_until {
+                dedup_metrics.defrag_prevented_dedup_chunks += 1;
+                dedup_metrics.defrag_prevented_dedup_bytes += n_bytes;
+            }
             #[cfg(xet_verif)]
             utils::verif::emit("DdDecision", || {
                 format!(
